@@ -129,7 +129,7 @@ def check_modes(case, probe=True):
 
 @st.composite
 def strategy(draw):
-    case = draw(gen_maps.pipeline_case(modes=["all"], kinds=KINDS, max_queries=5,
+    case = draw(gen_maps.pipeline_case(flank_repeat=2, modes=["all"], kinds=KINDS, max_queries=5,
                                        options=["-diff", "-sp", "-d", "-p", "-ms", "-su", "-ss", "-sj"], weight_default=4,
                                        ref_sizes=("small", "medium", "medium", "large")))
     return case
